@@ -90,20 +90,20 @@ func (r *Run) Obl(id, engine, rule, why string, floor int, body func(o *Obl)) {
 		defer func() {
 			if x := recover(); x != nil {
 				if ae, ok := x.(AnchorError); ok {
-					o.FailAt("anchor", "", ae.Error())
+					o.FailAt("anchor", "", "%s", ae.Error())
 					return
 				}
 				st := string(debug.Stack())
 				if len(st) > 1500 {
 					st = st[:1500]
 				}
-				o.FailAt("checker-panic", "", fmt.Sprintf("checker panic: %v\n%s", x, st))
+				o.FailAt("checker-panic", "", "checker panic: %v\n%s", x, st)
 			}
 		}()
 		body(o)
 	}()
 	if o.Matched < o.Floor {
-		o.FailAt("floor", "", fmt.Sprintf("rule matched %d constructs, fewer than the %d confirmed by reading: the anchor moved or the rule no longer sees it", o.Matched, o.Floor))
+		o.FailAt("floor", "", "rule matched %d constructs, fewer than the %d confirmed by reading: the anchor moved or the rule no longer sees it", o.Matched, o.Floor)
 	}
 	// known findings
 	for i := range o.Failures {
